@@ -108,6 +108,12 @@ class Ctx:
         return "n%d" % self.nid
 
 
+def to_notification(v):
+    from reactivex.notification import OnCompleted, OnError, OnNext
+    r = vt.h(v) % 7
+    return OnCompleted() if r == 0 else OnError(vt.SourceError("demat")) if r == 1 else OnNext(("d", v))
+
+
 def F(w, nid, a, name, pool=None):
     """Instrumented callback for argument `name` of node `nid`."""
     spec = a[name]
@@ -145,6 +151,8 @@ R("as_observable", 1, lambda c: {}, lambda w, n, a, i: i[0].pipe(ops.as_observab
 R("ignore_elements", 1, lambda c: {}, lambda w, n, a, i: i[0].pipe(ops.ignore_elements()), ())
 R("materialize", 1, lambda c: {}, lambda w, n, a, i: i[0].pipe(ops.materialize()), ())
 R("dematerialize", 1, lambda c: {}, lambda w, n, a, i: i[0].pipe(ops.materialize(), ops.dematerialize()), ())
+# ... and over a hand-made stream of notifications that ends by plain completion (or error), not by a materialized terminal
+R("dematerialize_mapped", 1, lambda c: {}, lambda w, n, a, i: i[0].pipe(ops.map(to_notification), ops.dematerialize()), ())
 R("do_action", 1, lambda c: {"f": c.fn("action"), "e": c.fn("action"), "c": c.fn("action")},
   lambda w, n, a, i: i[0].pipe(ops.do_action(F(w, n, a, "f"), F(w, n, a, "e"), F(w, n, a, "c"))), {"cb"})
 R("tap", 1, lambda c: {"f": c.fn("action")}, lambda w, n, a, i: i[0].pipe(ops.tap(F(w, n, a, "f"))), {"cb"})
@@ -205,7 +213,7 @@ R("single_or_default_async", 1, lambda c: {"has": c.rng.random() < 0.5, "d": vt.
   lambda w, n, a, i: i[0].pipe(ops.single_or_default_async(a["has"], V(a["d"]))), {"term"})
 R("all", 1, lambda c: {"f": c.fn("pred")}, lambda w, n, a, i: i[0].pipe(ops.all(F(w, n, a, "f"))), {"cb", "term"})
 R("some", 1, lambda c: {"f": c.rng.choice([None, c.fn("pred")])}, lambda w, n, a, i: i[0].pipe(ops.some(F(w, n, a, "f"))), {"cb", "term"})
-R("contains", 1, lambda c: {"v": vt.gen_value(c.rng, 0.5), "cmp": c.rng.choice([None, c.fn("cmp")])},
+R("contains", 1, lambda c: {"v": vt.gen_value(c.rng, 0.5), "cmp": c.rng.choice([None, c.fn("cmp"), c.fn("cmp_le")])},
   lambda w, n, a, i: i[0].pipe(ops.contains(V(a["v"]), F(w, n, a, "cmp"))), {"cb", "term"})
 R("is_empty", 1, lambda c: {}, lambda w, n, a, i: i[0].pipe(ops.is_empty()), {"term"})
 R("sequence_equal_iter", 1, lambda c: {"v": [vt.gen_value(c.rng, 0.5) for _ in range(c.rng.randrange(0, 4))], "cmp": c.rng.choice([None, c.fn("cmp")])},
